@@ -20,6 +20,7 @@
 #include <fcppt/enum/input.hpp>
 #include <fcppt/enum/names.hpp>
 #include <fcppt/enum/output.hpp>
+#include <fcppt/enum/to_static.hpp>
 #include <fcppt/enum/to_string.hpp>
 #include <fcppt/enum/to_string_case.hpp>
 #include <fcppt/enum/to_string_impl_fwd.hpp>
@@ -76,6 +77,43 @@ enum class e9 : std::uint16_t
   fcppt_maximum = eight
 };
 
+// Enums whose to_string customisation returns std::string_view slices that are NOT followed by a
+// NUL byte: slices of one packed table held in an exact-size heap block (adjacent names, so
+// reading past a view's length shows up as extra characters, and past the last one as an ASan
+// report), and overlapping slices that share their first characters.
+enum class packed
+{
+  red,
+  green,
+  blue,
+  mag,
+  magenta,
+  fcppt_maximum = magenta
+};
+// slices of one string literal: only the last slice is followed by a NUL, an overrun of the
+// others stays inside the literal and shows up as extra characters
+enum class litslice : std::uint16_t
+{
+  cyan,
+  yellow,
+  ye,
+  black,
+  fcppt_maximum = black
+};
+enum class overlap : std::uint8_t
+{
+  x,
+  xy,
+  xyz,
+  fcppt_maximum = xyz
+};
+inline char const *heap_table(std::string_view const text)
+{
+  char *const p = new char[text.size()]; // exact size, no terminator, never freed
+  std::copy(text.begin(), text.end(), p);
+  return p;
+}
+
 #define C15_STREAM_OPS(E)                                                                                     \
   template <class Ch, class Tr> std::basic_ostream<Ch, Tr> &operator<<(std::basic_ostream<Ch, Tr> &s, E v)    \
   {                                                                                                           \
@@ -89,10 +127,58 @@ C15_STREAM_OPS(e1)
 C15_STREAM_OPS(e3)
 C15_STREAM_OPS(e4)
 C15_STREAM_OPS(e9)
+C15_STREAM_OPS(packed)
+C15_STREAM_OPS(overlap)
+C15_STREAM_OPS(litslice)
 }
 
 namespace fcppt::enum_
 {
+template <> struct to_string_impl<c15e::packed>
+{
+  static std::string_view get(c15e::packed const v)
+  {
+    static char const *const table = c15e::heap_table("redgreenbluemagmagenta");
+    switch (v)
+    {
+    case c15e::packed::red: return std::string_view(table, 3);
+    case c15e::packed::green: return std::string_view(table + 3, 5);
+    case c15e::packed::blue: return std::string_view(table + 8, 4);
+    case c15e::packed::mag: return std::string_view(table + 12, 3);
+    case c15e::packed::magenta: return std::string_view(table + 15, 7);
+    }
+    FCPPT_ASSERT_UNREACHABLE;
+  }
+};
+template <> struct to_string_impl<c15e::litslice>
+{
+  static std::string_view get(c15e::litslice const v)
+  {
+    static constexpr char const *table = "cyanyellowyeblack";
+    switch (v)
+    {
+    case c15e::litslice::cyan: return std::string_view(table, 4);
+    case c15e::litslice::yellow: return std::string_view(table + 4, 6);
+    case c15e::litslice::ye: return std::string_view(table + 10, 2);
+    case c15e::litslice::black: return std::string_view(table + 12, 5);
+    }
+    FCPPT_ASSERT_UNREACHABLE;
+  }
+};
+template <> struct to_string_impl<c15e::overlap>
+{
+  static std::string_view get(c15e::overlap const v)
+  {
+    static char const *const table = c15e::heap_table("xyz");
+    switch (v)
+    {
+    case c15e::overlap::x: return std::string_view(table, 1);
+    case c15e::overlap::xy: return std::string_view(table, 2);
+    case c15e::overlap::xyz: return std::string_view(table, 3);
+    }
+    FCPPT_ASSERT_UNREACHABLE;
+  }
+};
 template <> struct to_string_impl<c15e::e1>
 {
   static std::string_view get(c15e::e1 const v)
@@ -383,6 +469,14 @@ template <class E> void enum_all(char const *ename, std::vector<std::string> con
               std::string(fcppt::enum_::to_string(e)).c_str());
     VRT_CHECK(std::string(fcppt::enum_::names<E>()[e]) == nm, n1 + ":names", "names()[e] is %s",
               std::string(fcppt::enum_::names<E>()[e]).c_str());
+    {
+      // the name of the compile-time enumerator selected by to_static
+      std::string const st = fcppt::enum_::to_static(
+          e, [](auto const ic) { return std::string(fcppt::enum_::to_string(decltype(ic)::value)); });
+      VRT_CHECK(st == nm, n1 + ":to_static", "to_string of the static enumerator gives %s", show(st).c_str());
+      VRT_CHECK(fcppt::enum_::to_string(e).size() == nm.size(), n1 + ":to_string_size", "to_string has %zu characters",
+                fcppt::enum_::to_string(e).size());
+    }
     {
       fcppt::optional::object<E> const r = fcppt::enum_::from_string<E>(std::string_view(fcppt::enum_::to_string(e)));
       VRT_CHECK(r.has_value() && r.get_unsafe() == e, n1 + ":from_string", "from_string(to_string(e)) is %s",
@@ -732,6 +826,28 @@ void c15::register_text()
     enum_all<c15e::e3>("e3", {"a", "ab", "abc"}, extra);
     enum_all<c15e::e4>("e4", {"lower", "Lower", "LOWER", "lower_"}, extra);
     enum_all<c15e::e9>("e9", {"zero", "one", "two", "three", "four", "five", "six", "seven", "eight"}, extra);
+  });
+  // to_string customisations returning views that are not NUL-terminated
+  auto const view_extra = [] {
+    std::vector<std::string> extra = abc_strings(3);
+    for (char const *w : {"redgreen", "redgreenbluemagmagenta", "greenbluemagmagenta", "magm", "magmagenta", "ma", "agenta", "gree", "bluemag",
+                          "x", "xy", "xyz", "xyzx", "yz", "z", "red", "green", "blue", "mag", "magenta", "Red", "RED", "cyan", "yellow", "ye",
+                          "black", "cyanyellow", "cyanyellowyeblack", "yellowye", "yeblack", "yel", "y", "lack"})
+      extra.push_back(w);
+    return extra;
+  };
+  vrt::shard("enum_views", [view_extra] {
+    use_global("C.UTF-8");
+    enum_all<c15e::litslice>("litslice", {"cyan", "yellow", "ye", "black"}, view_extra());
+  });
+  // the same with exact-size heap blocks: reading past the block is an ASan report
+  vrt::shard("enum_views_heap/packed", [view_extra] {
+    use_global("C.UTF-8");
+    enum_all<c15e::packed>("packed", {"red", "green", "blue", "mag", "magenta"}, view_extra());
+  });
+  vrt::shard("enum_views_heap/overlap", [view_extra] {
+    use_global("C");
+    enum_all<c15e::overlap>("overlap", {"x", "xy", "xyz"}, view_extra());
   });
   // --- vectors and dims
   namespace fv = fcppt::math::vector;
